@@ -1070,6 +1070,12 @@ func (pf *pfunc) linOfD(n *vn, depth int) *lin {
 				lb := pf.linOfD(pf.mkLen(a.args[1]), depth+1)
 				return la.add(lb)
 			}
+		case "call":
+			for suffix, l := range resultLen {
+				if strings.HasPrefix(a.name, suffix) {
+					return linConst(big.NewInt(l))
+				}
+			}
 		case "conv":
 			// string <-> []byte conversions keep the length
 			if isStringOrBytes(a.typ) && isStringOrBytes(a.args[0].typ) {
@@ -1078,6 +1084,14 @@ func (pf *pfunc) linOfD(n *vn, depth int) *lin {
 		}
 	}
 	return linAtom(n)
+}
+
+// resultLen: fixed result lengths of trusted external functions (contracts).
+var resultLen = map[string]int64{
+	"github.com/libsv/go-bk/crypto.Sha256d":   32,
+	"github.com/libsv/go-bk/crypto.Sha256":    32,
+	"github.com/libsv/go-bk/crypto.Hash160":   20,
+	"github.com/libsv/go-bk/crypto.Ripemd160": 20,
 }
 
 func isStringOrBytes(t types.Type) bool {
